@@ -82,6 +82,9 @@ inductive Ev
   | lost (aid id : Nat)
   /-- ghost: job dropped without any report (factory stopped with jobs in a worker queue, …) -/
   | dropped (id : Nat)
+  /-- ghost: job still in the factory queue (no handler configured) or in a worker's queue when
+  `post_stop` ran: it vanishes without any report -/
+  | abandoned (id : Nat)
   /-- the acceptance port of a job was dropped unanswered (the job was still in the factory's
   mailbox when the factory actor stopped) -/
   | portClosed (id : Nat)
@@ -752,7 +755,7 @@ def W.handleSupervisorEvt (w : W) (who : Nat) : W :=
 /-- `post_stop`, remaining factory queue: Shutdown discards if a handler is configured,
 silently dropped otherwise -/
 def Env.dropQueued (h : Option Nat) (e : Env) (j : Job) : Env :=
-  if h.isSome then e.discard h .shutdown j else e.emit (.dropped j.id)
+  if h.isSome then e.discard h .shutdown j else e.emit (.abandoned j.id)
 
 /-- a message still in the factory's mailbox is dropped with it -/
 def Env.dropMsg (e : Env) : FMsg → Env
@@ -760,7 +763,7 @@ def Env.dropMsg (e : Env) : FMsg → Env
   | _ => e
 
 /-- jobs still in a worker queue vanish with the pool -/
-def Env.dropWorkerQueue (e : Env) (p : WP) : Env := p.mq.foldl (fun e j => e.emit (.dropped j.id)) e
+def Env.dropWorkerQueue (e : Env) (p : WP) : Env := p.mq.foldl (fun e j => e.emit (.abandoned j.id)) e
 
 /-- `post_stop` up to the point where it waits for the workers to exit: the remaining factory
 queue is discarded, the workers are told to stop. The factory's bookkeeping is dropped. -/
